@@ -1,1 +1,2 @@
 import YardlModel.Wire
+import YardlModel.Streams
